@@ -67,7 +67,8 @@ Inductive case :=
          (ws : list wlit)            (* Write / WriteGSO calls in call order *)
          (segs : list slit)          (* the calls re-segmented by the harness' kernel reference, in order *)
          (harness_ok : bool).        (* no panic; every recorded header parsed; every checksum completed from the
-                                        coalescer's seed verified from scratch *)
+                                        coalescer's seed verified from scratch; the real tio.Offload put the
+                                        contracted virtio_net_hdr + bytes on its descriptor for every call *)
 
 Fixpoint resolve_ins (tpls : list pkt) (ins : list (key * plit)) : option (list staged) :=
   match ins with
